@@ -48,12 +48,7 @@ def gen_history(rng, nops, far, nleases):
                 cur = ref.get(n, bytearray())
                 testv = []
                 for _ in range(rng.choice([0, 0, 1, 2])):
-                    o = sc.rand_offset(rng, len(cur), far)
-                    l = rng.choice([0, 1, 3, 10, 100])
-                    spec = bytes(cur[o:o + l])
-                    if rng.random() < 0.1:
-                        spec = spec + b"x"
-                    testv.append([o, l, hx(spec)])
+                    testv.append(sc.rand_testv(rng, cur, far, 0.1))
                 datav, _ = sc.rand_datav(rng, len(cur), far)
                 rr = rng.random()
                 if rr < 0.55:
@@ -246,7 +241,7 @@ def corpus():
     """Fixed cases that run first in every run (independent of the random stream); one per known failure
     mechanism.  VERIF_CORPUS_ONLY=1 runs only these."""
     return [corpus_empty_write(), corpus_relocation(), corpus_small_growth_with_extra_leases(),
-            corpus_truncate_then_grow(), corpus_vector_order()]
+            corpus_truncate_then_grow(), corpus_vector_order(), corpus_testv_length_vs_specimen()]
 
 
 def corpus_small_growth_with_extra_leases():
@@ -293,6 +288,23 @@ def corpus_vector_order():
         ["readv", [], [[0, 100]]],
         ["rtw", 7, 10 ** 12, WE, s1, s2, False, [[0, [], [[40, hx(b"far")], [10, hx(b"near")], [38, hx(b"ZZZZZZ")]], 43]], [[0, 100]]],
         ["readv", [], [[0, 100]]], ["dump"]]}
+
+
+def corpus_testv_length_vs_specimen():
+    """test vectors whose length differs from the specimen's, against an existing longer share: the server reads `len`
+    bytes (clipped at the end of the data) and compares for equality, so a specimen that is only a PREFIX of the bytes
+    read — the empty specimen included: the publisher's "(0, 1, eq, b'')" must-not-exist guard — fails, and so does a
+    specimen longer than len; on a missing share (reads as empty) the guard passes"""
+    s1, s2 = hx(b"\x41" * 32), hx(b"\x42" * 32)
+    return {"nodeid": hx(sc.NODEID), "ops": [
+        ["rtw", 5, 10 ** 12, WE, s1, s2, True, [[0, [[0, 1, "-"]], [[0, hx(b"abcdefghij")]], None]], []],     # guard passes: new share
+        ["rtw", 6, 10 ** 12, WE, s1, s2, False, [[0, [[0, 1, "-"]], [[0, hx(b"CLOBBER")]], None]], [[0, 20]]],  # guard must fail now
+        ["readv", [], [[0, 20]]],
+        ["rtw", 7, 10 ** 12, WE, s1, s2, False, [[0, [[0, 5, hx(b"abc")]], [[0, hx(b"X")]], None]], [[0, 20]]],  # prefix specimen
+        ["rtw", 8, 10 ** 12, WE, s1, s2, False, [[0, [[2, 100, hx(b"cdefgh")]], [[0, hx(b"Y")]], None]], [[0, 20]]],  # clipped read is longer
+        ["rtw", 9, 10 ** 12, WE, s1, s2, False, [[0, [[0, 3, hx(b"abcd")]], [[0, hx(b"Z")]], None]], [[0, 20]]],   # specimen longer than len
+        ["rtw", 10, 10 ** 12, WE, s1, s2, False, [[0, [[8, 0, "-"], [0, 4, hx(b"abcd")], [8, 100, hx(b"ij")]], [[10, hx(b"k")]], None]], [[0, 20]]],  # all pass
+        ["readv", [], [[0, 20]]], ["dump"]]}
 
 
 def corpus_empty_write():
